@@ -1976,10 +1976,16 @@ dt_ddiff(dt_durtyp_t tgttyp, struct dt_d_s d1, struct dt_d_s d2, int carry)
 		int fix = __sgn(carry) == -__sgn(tmp2.u - tmp1.u);
 
 		if (UNLIKELY(fix)) {
-			/* add -1 iff tmp2 > tmp1 && carry < 0
-			 * add 1 iff tmp2 < tmp1 && carry > 0, i.e.
-			 * add sgn(carry) iff sgn(tmp2-tmp1) = -sgn(carry) */
-			tmp2 = __ymd_add_d(tmp2, __sgn(carry));
+			/* the time of day makes the span a day shorter,
+			 * take that day off the later of the two dates,
+			 * whichever way round they come, adding it to the
+			 * earlier one instead is not the same at the end
+			 * of a month (or year) */
+			if (carry < 0) {
+				tmp2 = __ymd_add_d(tmp2, -1);
+			} else if (carry > 0) {
+				tmp1 = __ymd_add_d(tmp1, -1);
+			}
 		}
 		res = __ymd_diff(tmp1, tmp2);
 		res.fix = fix;
@@ -1991,10 +1997,16 @@ dt_ddiff(dt_durtyp_t tgttyp, struct dt_d_s d1, struct dt_d_s d2, int carry)
 		int fix = carry && __sgn(carry) == -__ymcw_cmp(tmp1, tmp2);
 
 		if (UNLIKELY(fix)) {
-			/* add -1 iff tmp2 > tmp1 && carry < 0
-			 * add 1 iff tmp2 < tmp1 && carry > 0, i.e.
-			 * add sgn(carry) iff sgn(tmp2-tmp1) = -sgn(carry) */
-			tmp2 = __ymcw_add_d(tmp2, __sgn(carry));
+			/* the time of day makes the span a day shorter,
+			 * take that day off the later of the two dates,
+			 * whichever way round they come, adding it to the
+			 * earlier one instead is not the same at the end
+			 * of a month (or year) */
+			if (carry < 0) {
+				tmp2 = __ymcw_add_d(tmp2, -1);
+			} else if (carry > 0) {
+				tmp1 = __ymcw_add_d(tmp1, -1);
+			}
 		}
 		res = __ymcw_diff(tmp1, tmp2);
 		res.fix = fix;
@@ -2006,10 +2018,16 @@ dt_ddiff(dt_durtyp_t tgttyp, struct dt_d_s d1, struct dt_d_s d2, int carry)
 		int fix = __sgn(carry) == -__sgn(tmp2.u - tmp1.u);
 
 		if (UNLIKELY(fix)) {
-			/* add -1 iff tmp2 > tmp1 && carry < 0
-			 * add 1 iff tmp2 < tmp1 && carry > 0, i.e.
-			 * add sgn(carry) iff sgn(tmp2-tmp1) = -sgn(carry) */
-			tmp2 = __yd_add_d(tmp2, __sgn(carry));
+			/* the time of day makes the span a day shorter,
+			 * take that day off the later of the two dates,
+			 * whichever way round they come, adding it to the
+			 * earlier one instead is not the same at the end
+			 * of a month (or year) */
+			if (carry < 0) {
+				tmp2 = __yd_add_d(tmp2, -1);
+			} else if (carry > 0) {
+				tmp1 = __yd_add_d(tmp1, -1);
+			}
 		}
 		res = __yd_diff(tmp1, tmp2);
 		res.fix = fix;
@@ -2021,10 +2039,16 @@ dt_ddiff(dt_durtyp_t tgttyp, struct dt_d_s d1, struct dt_d_s d2, int carry)
 		int fix = __sgn(carry) == -__sgn(tmp2.u - tmp1.u);
 
 		if (UNLIKELY(fix)) {
-			/* add -1 iff tmp2 > tmp1 && carry < 0
-			 * add 1 iff tmp2 < tmp1 && carry > 0, i.e.
-			 * add sgn(carry) iff sgn(tmp2-tmp1) = -sgn(carry) */
-			tmp2 = __ywd_add_d(tmp2, __sgn(carry));
+			/* the time of day makes the span a day shorter,
+			 * take that day off the later of the two dates,
+			 * whichever way round they come, adding it to the
+			 * earlier one instead is not the same at the end
+			 * of a month (or year) */
+			if (carry < 0) {
+				tmp2 = __ywd_add_d(tmp2, -1);
+			} else if (carry > 0) {
+				tmp1 = __ywd_add_d(tmp1, -1);
+			}
 		}
 		res = __ywd_diff(tmp1, tmp2);
 		res.fix = fix;
